@@ -442,3 +442,7 @@ mod tests {
         Ok(())
     }
 }
+
+#[cfg(kani)]
+#[path = "/verif/harness/index_binarysorted.rs"]
+pub(crate) mod verif_harness;
